@@ -21,7 +21,9 @@ import numpy as np
 from . import common, model, geom
 from .common import Reporter, run_tlc, MachineryError
 
-COMMENTS = [None, "", " x ", "#", "1 2 3", "C 0 0 0", "ångström ☃ 化学", "c" * 200, "3", "\t tab \t"]
+COMMENTS = [None, "", " x ", "#", "1 2 3", "C 0 0 0", "ångström ☃ 化学", "c" * 200, "3", "\t tab \t",
+            # characters that mean something to str.format / % / regular expressions / shells
+            '{"energy": -113.8}', "{} {0} {x!r}", "100% %s %(x)d", "\\n \\ $HOME `x` *"]
 MODS = {"quick": {"xyz": 40, "conn": {2: 1, 3: 9, 4: 400, 5: 20000}, "pairs": 5},
         "thorough": {"xyz": 1, "conn": {2: 1, 3: 1, 4: 15, 5: 600}, "pairs": 1}}
 
